@@ -726,3 +726,340 @@ Proof.
   - intros x E. destruct (Nd _ E).
   - intros o o' E. destruct (Nh _ E).
 Qed.
+
+(** * Evolution of a state: tasks and units only move forward *)
+Definition ext (s s' : state) : Prop := tasks_ext (tasks s) (tasks s') /\ units_ext (units s) (units s').
+
+Lemma ext_refl s : ext s s.
+Proof. split; [apply tasks_ext_refl|apply units_ext_refl]. Qed.
+Lemma ext_trans a b c : ext a b -> ext b c -> ext a c.
+Proof. intros [] []. split; [eapply tasks_ext_trans|eapply units_ext_trans]; eauto. Qed.
+
+Definition bar (s : state) (u : nat) : Prop := dp s = DAtBarrier u \/ dp s = DBarrierWait u.
+
+Lemma task_step_ok s s' : inv s -> wait_ok s' -> tasks_ext (tasks s) (tasks s') ->
+  length (tasks s') = length (tasks s) -> units s' = units s -> dp s' = dp s -> inv s' /\ ext s s'.
+Proof.
+  intros I W X L U D. split; [eapply inv_tasks_step; eauto|]. split; auto. rewrite U. apply units_ext_refl.
+Qed.
+
+Lemma same_step_ok s s' : inv s -> tasks s' = tasks s -> units s' = units s -> sem_wait s' = sem_wait s ->
+  (forall u, bar s' u -> bar s u) -> inv s' /\ ext s s'.
+Proof.
+  intros [I1 I2 I3 I4 I5] T U W B. split.
+  - constructor; unfold wait_ok, all_finished, unit_tasks in *; rewrite ?T, ?U, ?W; auto.
+    intros u Hu. apply I2. apply B. exact Hu.
+  - unfold ext. rewrite T, U. apply ext_refl.
+Qed.
+
+Lemma core0_step_ok s s' : inv s -> core0 s' = core0 s -> inv s' /\ ext s s'.
+Proof.
+  intros I C. unfold core0 in C. injection C as T U Us W F D G R B.
+  apply same_step_ok; auto. unfold bar. rewrite D. auto.
+Qed.
+
+Lemma set_unit_ok s i un x s' : inv s -> nth_error (units s) i = Some un -> urank (u_st un) <= urank x ->
+  tasks s' = tasks s -> sem_wait s' = sem_wait s ->
+  units s' = upd_nth i (fun y => y <| u_st := x |>) (units s) ->
+  (forall u, bar s' u -> bar s u /\ u <> i) ->
+  (x = UAtDeliver \/ x = UFinished -> all_finished s i = true) -> inv s' /\ ext s s'.
+Proof.
+  intros [I1 I2 I3 I4 I5] Ei Rk T W U B Fin. split.
+  - constructor; unfold wait_ok, all_finished, unit_tasks in *; rewrite ?T, ?U, ?W, ?upd_nth_length; auto.
+    + intros u Hu. destruct (B _ Hu) as [Hb Hn]. rewrite nth_error_upd_nth_neq; auto.
+    + intros u un' Eu Su. rewrite nth_error_upd_nth in Eu. destruct (Nat.eqb_spec i u) as [<-|N].
+      * rewrite Ei in Eu. cbn in Eu. injection Eu as <-. cbn in Su. auto.
+      * eauto.
+  - split; [rewrite T; apply tasks_ext_refl|]. rewrite U. apply list_ext_upd; [apply unit_le_refl|].
+    intros y Ey. rewrite Ei in Ey. injection Ey as <-. apply unit_le_st; auto.
+Qed.
+
+Lemma find_unit_some p : forall l i k, find_unit p i l = Some k ->
+  exists un, nth_error l (k - i) = Some un /\ p k un = true /\ i <= k.
+Proof.
+  induction l as [|x r IH]; cbn; intros i k H; [discriminate|].
+  destruct (p i x) eqn:P.
+  - injection H as <-. rewrite Nat.sub_diag. exists x. auto.
+  - destruct (IH _ _ H) as (un & E & Pk & Le). exists un.
+    replace (k - i) with (S (k - S i)) by lia. cbn. repeat split; auto. lia.
+Qed.
+
+Lemma unit_complete_inv s i un : unit_complete s i un = true -> u_st un = URunning /\ all_finished s i = true.
+Proof. unfold unit_complete. destruct (u_st un); try discriminate. auto. Qed.
+
+(* dequeue *)
+Lemma filter_none {A} (p : A -> bool) l : (forall x, In x l -> p x = false) -> filter p l = [].
+Proof.
+  induction l as [|x r IH]; cbn; auto. intros H. rewrite (H x (or_introl eq_refl)). apply IH. auto.
+Qed.
+
+Lemma dequeue_ok s : inv s -> inv (dequeue s) /\ ext s (dequeue s).
+Proof.
+  intros I. unfold dequeue. destruct (inq s) as [|[batch ms] q] eqn:Q.
+  - destruct (running s); apply same_step_ok; auto; unfold bar; cbn; intros u [D|D]; discriminate.
+  - destruct I as [[ND W] I2 I3 I4 I5]. split.
+    + constructor; unfold wait_ok, all_finished, unit_tasks in *; cbn.
+      * split; auto. intros k Hk. destruct (W _ Hk) as (t & Et & St). exists t. split; auto.
+        apply nth_error_app_old; auto.
+      * intros u [D|D]; [|discriminate]. injection D as <-. rewrite nth_error_app_new. eauto.
+      * intros k t E. rewrite app_length. cbn.
+        destruct (Nat.lt_ge_cases k (length (tasks s))) as [Lt|Ge].
+        -- rewrite nth_error_app1 in E by auto. specialize (I3 _ _ E). lia.
+        -- rewrite nth_error_app2 in E by auto. apply nth_error_In, in_map_iff in E as (m & <- & _).
+           rewrite mk_task_unit. lia.
+      * intros k t E.
+        destruct (Nat.lt_ge_cases k (length (tasks s))) as [Lt|Ge].
+        -- rewrite nth_error_app1 in E by auto. eauto.
+        -- rewrite nth_error_app2 in E by auto. apply nth_error_In, in_map_iff in E as (m & <- & _).
+           apply mk_task_twf.
+      * intros u un E Su.
+        destruct (Nat.lt_ge_cases u (length (units s))) as [Lt|Ge].
+        -- rewrite nth_error_app1 in E by auto. rewrite filter_app, forallb_app. rewrite (I5 _ _ E Su). cbn.
+           rewrite filter_none; auto. intros t Ht. apply in_map_iff in Ht as (m & <- & _).
+           rewrite mk_task_unit. apply Nat.eqb_neq. lia.
+        -- rewrite nth_error_app2 in E by auto. destruct (u - length (units s)) as [|n]; cbn in E.
+           ++ injection E as <-. cbn in Su. destruct Su; discriminate.
+           ++ destruct n; discriminate.
+    + split; cbn; apply list_ext_app; [apply task_le_refl|apply unit_le_refl].
+Qed.
+
+(** * Every raw step and every settling step preserves [inv] and moves forward *)
+Lemma stop_ok c s s' os : inv s -> stop_locked c s = (s', os) -> inv s' /\ ext s s'.
+Proof.
+  intros I H. apply stop_locked_spec in H as [(_ & -> & _)|(_ & _ & P)].
+  - split; auto. apply ext_refl.
+  - destruct P. apply task_step_ok; auto. apply sp_wait0. apply I.
+Qed.
+
+Lemma raw_gate s p o s' os : inv s -> step_raw s (LGate p o) = Some (s', os) -> inv s' /\ ext s s'.
+Proof.
+  intros I H. cbn in H.
+  destruct (find_idx _ 0 (tasks s)) as [k|] eqn:F; [|discriminate].
+  destruct (nth_error (tasks s) k) as [t|] eqn:E; [|discriminate].
+  injection H as <- <-.
+  apply find_idx_some in F as (x & Ex & Px & _). rewrite Nat.sub_0_r, E in Ex. injection Ex as <-.
+  apply andb_true_iff in Px as [_ Px]. destruct (t_st t) eqn:St; try discriminate.
+  apply task_step_ok; auto.
+  - unfold wait_ok; cbn. apply wait_ok_upd; [apply I|]. eapply wait_not_in; eauto; [apply I|congruence].
+  - apply set_task_ext. intros t0 E0. rewrite E in E0. injection E0 as <-.
+    apply task_le_st. rewrite St. apply st_le_rank; cbn; try congruence; lia.
+  - cbn. apply upd_nth_length.
+Qed.
+
+Lemma raw_read s s' os : inv s -> step_raw s LRelRead = Some (s', os) -> inv s' /\ ext s s'.
+Proof.
+  intros I H. cbn in H. destruct (rd s) as [| |f|] eqn:R; try discriminate. injection H as H.
+  destruct f as [i|i|c].
+  3:{ cbn in H. destruct (stop_locked c s) as [s1 os1] eqn:St. injection H as <- <-.
+      destruct (stop_ok _ _ _ _ I St) as [I1 X1]. 
+      destruct (same_step_ok s1 (s1 <| rd := RExited |> <| wg ::= pred |>) I1) as [I2 X2]; auto. }
+  all: destruct (running s) eqn:Rn;
+    [ eapply read_cs_msg in H as (C & _); eauto; apply core0_step_ok; auto
+    | cbn in H; rewrite Rn in H; cbn in H; injection H as <- <-; apply same_step_ok; auto ].
+Qed.
+
+Lemma NoDup_snoc {A} (l : list A) x : NoDup l -> ~ In x l -> NoDup (l ++ [x]).
+Proof.
+  induction l as [|y r IH]; cbn; intros ND N.
+  - constructor; auto.
+  - inversion ND; subst. constructor.
+    + intros I. apply in_app_or in I as [I|[<-|[]]]; auto.
+    + apply IH; auto.
+Qed.
+
+Lemma raw_acquire s k s' os : inv s -> step_raw s (LRelAcquire k) = Some (s', os) -> inv s' /\ ext s s'.
+Proof.
+  intros I H. cbn in H.
+  destruct (nth_error (tasks s) k) as [t|] eqn:E; [|discriminate].
+  destruct (t_st t) eqn:St; try discriminate.
+  destruct (unit_running s t); cbn in H; [|discriminate].
+  assert (Nk : ~ In k (sem_wait s)) by (eapply wait_not_in; eauto; [apply I|congruence]).
+  assert (X : forall x, x <> TSkip -> tasks_ext (tasks s) (upd_nth k (fun t => t <| t_st := x |>) (tasks s))).
+  { intros x Nx. apply list_ext_upd; [apply task_le_refl|]. intros t0 E0. rewrite E in E0. injection E0 as <-.
+    apply task_le_st. rewrite St. apply st_le_rank; cbn; try congruence; lia. }
+  destruct (t_cancelled t).
+  { injection H as <- <-. apply task_step_ok; auto; cbn; [|apply X; congruence|apply upd_nth_length].
+    unfold wait_ok; cbn. apply wait_ok_upd; auto. apply I. }
+  destruct (sem_free s) as [|fr].
+  2: destruct (sem_wait s) as [|w0 wr] eqn:Wq.
+  2: destruct (t_builtin t).
+  2,3: injection H as <- <-; apply task_step_ok; auto; cbn; [|apply X; congruence|apply upd_nth_length];
+       unfold wait_ok; cbn; apply wait_ok_upd; [apply I|rewrite Wq; auto].
+  all: injection H as <- <-; apply task_step_ok; auto; cbn; [|apply X; congruence|apply upd_nth_length].
+  all: destruct I as [[ND W] _ _ _ _]; unfold wait_ok; cbn; split.
+  1,3: apply NoDup_snoc; auto; rewrite ?Wq; auto.
+  all: intros j Hj; apply in_app_or in Hj as [Hj|[<-|[]]];
+    [ rewrite nth_error_upd_nth_neq; [auto|congruence]
+    | erewrite nth_error_upd_nth_eq; eauto ].
+Qed.
+
+Lemma raw_handled s k s' os : inv s -> step_raw s (LRelHandled k) = Some (s', os) -> inv s' /\ ext s s'.
+Proof.
+  intros I H. unfold step_raw in H.
+  destruct (nth_error (tasks s) k) as [t|] eqn:E; [|discriminate].
+  destruct (t_st t) eqn:St; try discriminate.
+  set (s1 := set_task k (fun t => t <| t_st := TDone (body_of_outcome t o) |>) s <| sem_free ::= S |>) in *.
+  assert (W1 : wait_ok s1).
+  { unfold wait_ok, s1; cbn. apply wait_ok_upd; [apply I|]. eapply wait_not_in; eauto; [apply I|congruence]. }
+  assert (X1 : tasks_ext (tasks s) (tasks s1)).
+  { unfold s1; cbn. apply list_ext_upd; [apply task_le_refl|]. intros t0 E0. rewrite E in E0. injection E0 as <-.
+    apply task_le_st. rewrite St. repeat split; cbn; try lia; try congruence. }
+  pose proof (grant_spec (S (length (sem_wait s1))) s1 [] W1) as G.
+  destruct (grant (S (length (sem_wait s1))) s1 []) as [s2 os2]. cbn [fst snd] in G.
+  destruct G as [W2 X2 L2 (Eu & Ed & _) _ _ _ _].
+  assert (R : inv s2 /\ ext s s2).
+  { apply task_step_ok; auto.
+    - eapply tasks_ext_trans; eauto.
+    - rewrite L2. unfold s1; cbn. apply upd_nth_length. }
+  destruct R as [I2 Xs].
+  destruct (is_note t).
+  - destruct (nbar s2); injection H as <- <-.
+    + destruct (same_step_ok s2 (s2 <| crash := Some CrNegativeBarrier |>) I2) as [I3 X3]; auto.
+    + destruct (same_step_ok s2 (s2 <| nbar := n |>) I2) as [I3 X3]; auto.
+  - injection H as <- <-. auto.
+Qed.
+
+Lemma raw_deliver s u s' os : inv s -> step_raw s (LRelDeliver u) = Some (s', os) -> inv s' /\ ext s s'.
+Proof.
+  intros I H. cbn in H.
+  destruct (nth_error (units s) u) as [un|] eqn:E; [|discriminate].
+  destruct (u_st un) eqn:Su; try discriminate.
+  destruct (release_ids_spec (unit_tasks s u) s) as [W X L (Eu & Ed & _) _ _ _].
+  set (s1 := release_ids (unit_tasks s u) s) in *.
+  destruct (task_step_ok s s1 I) as [I1 X1]; auto. { apply W, I. }
+  destruct (u_chok un); cbn in H; injection H as <- <-.
+  - assert (Fin : all_finished s1 u = true) by (apply (i_fin _ I1 u un); [congruence|auto]).
+    assert (R : inv (set_unit u (fun x => x <| u_st := UFinished |>) s1 <| wg ::= pred |>) /\
+                ext s1 (set_unit u (fun x => x <| u_st := UFinished |>) s1 <| wg ::= pred |>)).
+    { eapply (set_unit_ok s1 u un UFinished); auto; try congruence.
+      - rewrite Su. cbn. lia.
+      - intros v Hv. split; [exact Hv|]. intros ->. destruct (i_dp _ I1 _ Hv) as (un' & E' & S').
+        rewrite Eu, E in E'. injection E' as <-. congruence. }
+    destruct R as [I2 X2]. split; auto. eapply ext_trans; eauto.
+  - destruct (same_step_ok s1 (s1 <| crash := Some CrNilChannel |>) I1) as [I3 X3]; auto.
+Qed.
+
+Lemma raw_step_ok s l s' os : inv s -> step_raw s l = Some (s', os) -> inv s' /\ ext s s'.
+Proof.
+  intros I H. destruct (frame_label l) eqn:Fl.
+  { apply step_raw_frame in H as [C _]; auto. apply core0_step_ok; auto. apply core_core0; auto. }
+  destruct l; try discriminate Fl.
+  - cbn in H. destruct (negb (running s) && (wg s =? 0)); [|discriminate]. injection H as <- <-.
+    apply same_step_ok; auto. unfold bar; cbn. intros u [D|D]; discriminate.
+  - eapply raw_gate; eauto.
+  - eapply raw_read; eauto.
+  - cbn in H. destruct (dp s); try discriminate. injection H as <- <-. apply dequeue_ok; auto.
+  - cbn in H. destruct (dp s) eqn:D; try discriminate. injection H as <- <-.
+    apply same_step_ok; auto. unfold bar; cbn. rewrite D. intros v [Dv|Dv]; [discriminate|]. injection Dv as <-. auto.
+  - eapply raw_acquire; eauto.
+  - eapply raw_handled; eauto.
+  - eapply raw_deliver; eauto.
+  - cbn in H. destruct (find_op n (ops s)) as [[n0|n0 id|n0 w m p]|]; try discriminate.
+    destruct (stop_locked SCStop (s <| ops ::= del_op n |>)) as [s1 os1] eqn:St. injection H as <- <-.
+    eapply (stop_ok SCStop (s <| ops ::= del_op n |>)) in St; auto.
+    destruct (same_step_ok s (s <| ops ::= del_op n |>) I); auto.
+  - cbn in H. destruct (find_op n (ops s)) as [[n0|n0 id|n0 w m p]|]; try discriminate.
+    injection H as <- <-. cbn.
+    destruct (assoc id (used s)) as [owner|].
+    + destruct (same_step_ok s (s <| ops ::= del_op n |>) I) as [I1 X1]; auto.
+      set (s1 := s <| ops ::= del_op n |>) in *.
+      destruct (cancel_task_env owner s1) as (Eu & Ed & _).
+      destruct (task_step_ok s1 (cancel_task owner s1) I1); auto.
+      * apply cancel_task_wait_ok, I1.
+      * apply cancel_task_ext.
+      * apply cancel_task_len.
+    + apply same_step_ok; auto.
+Qed.
+
+Lemma settle1_ok s s' os : inv s -> settle1 s = Some (s', os) -> inv s' /\ ext s s'.
+Proof.
+  intros I H. apply settle1_inv in H. destruct H.
+  - apply same_step_ok; auto.
+  - apply dequeue_ok; auto.
+  - destruct (i_dp _ I u (or_intror H)) as (un' & E' & S'). rewrite H1 in E'. injection E' as <-.
+    eapply (set_unit_ok s u un URunning); eauto.
+    + rewrite S'. cbn. lia.
+    + unfold bar; cbn. intros v [D|D]; discriminate.
+    + intros [D|D]; discriminate.
+  - apply find_unit_some in H as (un' & E' & C & _). rewrite Nat.sub_0_r, H0 in E'. injection E' as <-.
+    apply unit_complete_inv in C as [Su Fin].
+    eapply (set_unit_ok s i un UFinished); eauto.
+    + rewrite Su. cbn. lia.
+    + intros v Hv. split; [exact Hv|]. intros ->. destruct (i_dp _ I _ Hv) as (un' & E' & S').
+      rewrite H0 in E'. injection E' as <-. congruence.
+  - apply find_unit_some in H as (un' & E' & C & _). rewrite Nat.sub_0_r, H0 in E'. injection E' as <-.
+    apply unit_complete_inv in C as [Su Fin].
+    eapply (set_unit_ok s i un UAtDeliver); eauto.
+    + rewrite Su. cbn. lia.
+    + intros v Hv. split; [exact Hv|]. intros ->. destruct (i_dp _ I _ Hv) as (un' & E' & S').
+      rewrite H0 in E'. injection E' as <-. congruence.
+  - apply same_step_ok; auto.
+  - apply same_step_ok; auto.
+Qed.
+
+Lemma init_inv c : inv (init_of c).
+Proof.
+  constructor; cbn.
+  - split; [constructor|intros k []].
+  - intros u [D|D]; discriminate.
+  - intros [|k] t E; discriminate.
+  - intros [|k] t E; discriminate.
+  - intros [|u] un E; discriminate.
+Qed.
+
+Theorem reachf_inv c s : reachf c s -> inv s.
+Proof.
+  induction 1.
+  - apply init_inv.
+  - eapply raw_step_ok; eauto.
+  - eapply settle1_ok; eauto.
+Qed.
+
+(* generic lifting of a reflexive-transitive relation from raw/settle steps to windows and traces *)
+Section Lift.
+  Variable c : config.
+  Variable R : state -> state -> Prop.
+  Hypothesis R_refl : forall s, R s s.
+  Hypothesis R_trans : forall a b d, R a b -> R b d -> R a d.
+  Hypothesis R_raw : forall s l s' os, reachf c s -> crash s = None -> step_raw s l = Some (s', os) -> R s s'.
+  Hypothesis R_settle : forall s s' os, reachf c s -> settle1 s = Some (s', os) -> R s s'.
+
+  Lemma lift_settle : forall fuel s acc s' os, reachf c s -> settle fuel s acc = (s', os) -> R s s'.
+  Proof.
+    induction fuel as [|f IH]; cbn; intros s acc s' os Rs H.
+    - injection H as <- _. auto.
+    - destruct (settle1 s) as [[s1 os1]|] eqn:E.
+      + eapply R_trans; [eapply R_settle; eauto|]. eapply IH; [|exact H]. eapply rf_settle; eauto.
+      + injection H as <- _. auto.
+  Qed.
+
+  Lemma lift_step s l s' os : reachf c s -> step s l = Some (s', os) -> R s s'.
+  Proof.
+    intros Rs H. apply step_decompose in H as (C & s1 & os1 & Hr & [(_ & -> & _)|(C1 & Hs)]).
+    - eapply R_raw; eauto.
+    - eapply R_trans; [eapply R_raw; eauto|]. eapply lift_settle; [|exact Hs]. eapply rf_raw; eauto.
+  Qed.
+
+  Lemma lift_run : forall tr s s' oss, reachf c s -> run s tr = Some (s', oss) -> R s s'.
+  Proof.
+    induction tr as [|l r IH]; cbn; intros s s' oss Rs H.
+    - injection H as <- _. auto.
+    - destruct (step s l) as [[s1 os]|] eqn:E; [|discriminate].
+      destruct (run s1 r) as [[s2 oss2]|] eqn:E2; [|discriminate]. injection H as <- _.
+      eapply R_trans; [eapply lift_step; eauto|]. eapply IH; [|exact E2]. eapply step_reachf; eauto.
+  Qed.
+End Lift.
+
+Lemma step_ext c s l s' os : reachf c s -> step s l = Some (s', os) -> ext s s'.
+Proof.
+  apply (lift_step c ext ext_refl ext_trans).
+  - intros a l0 b os0 Ra _ H. eapply raw_step_ok; eauto. eapply reachf_inv; eauto.
+  - intros a b os0 Ra H. eapply settle1_ok; eauto. eapply reachf_inv; eauto.
+Qed.
+
+Lemma run_ext c tr s s' oss : reachf c s -> run s tr = Some (s', oss) -> ext s s'.
+Proof.
+  apply (lift_run c ext ext_refl ext_trans).
+  - intros a l0 b os0 Ra _ H. eapply raw_step_ok; eauto. eapply reachf_inv; eauto.
+  - intros a b os0 Ra H. eapply settle1_ok; eauto. eapply reachf_inv; eauto.
+Qed.
